@@ -17,6 +17,8 @@ class Plain(param.Parameterized):
     l = param.List(default=[])
     t = param.Tuple(default=(0, 0), length=2)
     d = param.Dict(default={})
+    dd = param.Dict(default={'a': 1, 'b': 2})
+    ld = param.List(default=[{'a': 1, 'b': 2}, 3])
     child = param.ClassSelector(class_=Leaf, default=None, allow_None=True)
 
 
